@@ -27,8 +27,8 @@ ASSUMPTIONS = ['reference model vt/ref.py (documented semantics; readings where 
 BUDGET_S = {'quick': 90, 'thorough': 400}
 STRATA = ['S1', 'S1L', 'S1n', 'S1p', 'S1x', 'S2', 'S2s', 'S3', 'S4', 'S5', 'S6']
 QUICK_CAPS = dsw.QUICK_CAPS_BIG
-CAP = {'quick': 250, 'thorough': 1500}
-N_LARGE = {'quick': 60, 'thorough': 400}
+CAP = {'quick': 250, 'thorough': 1000}
+N_LARGE = {'quick': 60, 'thorough': 200}
 
 
 def items(tier, seed):
